@@ -239,6 +239,13 @@ func (conn *Connection) SendClientMessage(msg interface{}, injectionEnabled bool
 	}
 	select {
 	case <-conn.done():
+		// Check this first; if there is room in the buffer, then the `select` below
+		// would pick either case at random and report half of the lost messages as sent.
+		return fmt.Errorf("attempt to send a client message on a closed websocket connection")
+	default:
+	}
+	select {
+	case <-conn.done():
 		return fmt.Errorf("attempt to send a client message on a closed websocket connection")
 	case conn.clientMessages <- clientMessage:
 	}
